@@ -34,7 +34,14 @@ impl Prop for C07 {
             allow_empty_mode: true,
             ..Knobs::default()
         };
-        gen::gen_world(rng, &k).world
+        let gw = gen::gen_world(rng, &k);
+        if gw.configs.iter().any(|c| c.has_nullable_pattern()) {
+            mark("probe.world_with_nullable_pattern");
+        }
+        if gw.configs.iter().any(|c| c.has_empty_mode()) {
+            mark("probe.world_with_empty_mode");
+        }
+        gw.world
     }
     fn new_gen<'w>(&self, world: &'w World, rng: &mut Rng) -> Box<dyn Gen + 'w> {
         Box::new(Gen07 { m: GenModel::new(world, 2, 3), len: rng.range(8, 60) })
@@ -54,7 +61,7 @@ impl Prop for C07 {
     fn expected_probes(&self) -> &'static [&'static str] {
         &[
             "probe.token_after_reset", "probe.none_then_next", "probe.peek_with_matches", "probe.multibyte_token",
-            "probe.nullable_pattern_built", "probe.lookahead_world", "fault.reset_back", "fault.reset_fwd",
+            "probe.world_with_nullable_pattern", "probe.world_with_empty_mode", "probe.build_ok", "probe.lookahead_world", "fault.reset_back", "fault.reset_fwd",
             "fault.reset_zero", "fault.reset_len", "fault.reset_beyond", "fault.exhaust_then_continue",
             "fault.mode_override", "fault.skip_ahead", "fault.abandon",
         ]
@@ -238,7 +245,6 @@ impl<'w> Exec for Exec07<'w> {
                     Ok(s) => {
                         self.scanners[*sc] = Some((s, *cfg));
                         bump("probe.build_ok");
-                        mark("probe.nullable_pattern_built");
                         StepOut::ok(Obs::Built(Ok(())))
                     }
                     Err(Ok(kind)) => {
